@@ -149,29 +149,9 @@ static int same_class(const case_t *c, const model_t *a, int ja, const model_t *
     return c->place[ja - 1] == c->place[jb - 1] && a->conv == b->conv && !memcmp(a->exp, b->exp, sizeof(int) * c->m * c->m);
 }
 
-/* ---------------- known finding "C18-output-type-change-reuses-reshape-promise" ----------------
- * jdf2c's iterate_successors never resets data.data_future when the [type] of successive output deps of one flow
- * changes, so parsec_create_reshape_promise hands the FIRST dep's promise to every later local consumer.
- * Attribution rule (used only when the finding is listed in known_findings.json): consumer j is attributable iff it
- * is local to the producer's rank, its output dep carries [type] (kinds o, b, x) and another local consumer fed by
- * the same flow has a different or absent output [type]. */
-#define KNOWN_ID "C18-output-type-change-reuses-reshape-promise"
-static int known_enabled = 0;
-static int out_type_of(const case_t *c, int j) { char k = c->st->kinds[j - 1]; return (k == 'o' || k == 'b' || k == 'x') ? c->bind[slot_of("TO", j)] : -1; }
-static int attributable(const case_t *c, int j)
-{
-    if (!known_enabled || c->place[j - 1] != 0 || out_type_of(c, j) < 0) return 0;
-    for (int i = 1; i <= c->st->nc; i++) {
-        char k = c->st->kinds[i - 1];
-        if (i == j || c->place[i - 1] != 0 || k == 'd' || k == 'e') continue;
-        if (out_type_of(c, i) != out_type_of(c, j)) return 1;
-    }
-    return 0;
-}
-
 /* ---------------- statistics ---------------- */
 typedef struct {
-    long cases, nontrivial, elems, conv_local, conv_remote, noconv, shared_pairs, tile_written, known_hits, known_cases;
+    long cases, nontrivial, elems, conv_local, conv_remote, noconv, shared_pairs, tile_written;
     sx_set_t outcomes; char samples[3][512]; int nsamples; int violations, exhaustive;
 } stat_t;
 
@@ -203,7 +183,7 @@ static void fatal_handler(int sig)
 /* ---------------- run one case ---------------- */
 static int run_case(const case_t *c, stat_t *st, char *msg, size_t mcap, int verbose)
 {
-    int m = c->m, nc = c->st->nc, bad = 0, khits = 0; msg[0] = 0;
+    int m = c->m, nc = c->st->nc, bad = 0; msg[0] = 0;
     types_init(m);
     uint32_t own0[1] = { 0 }, ownr[MAXC];
     for (int j = 0; j < nc; j++) ownr[j] = (uint32_t)c->place[j];
@@ -235,7 +215,6 @@ static int run_case(const case_t *c, stat_t *st, char *msg, size_t mcap, int ver
                            c->place[j - 1] ? "remote" : "local", mo[j].conv ? "conversion" : "no conversion", TYN[mo[j].S], TYN[mo[j].D], a, b); }
         if (memcmp(snap[0][j], mo[j].exp, sizeof(int) * m * m)) {
             fmt_tile(a, sizeof(a), snap[0][j], m * m); fmt_tile(b, sizeof(b), mo[j].exp, m * m);
-            if (attributable(c, j)) { khits++; if (verbose) printf("    -> consumer %d: wrong copy, attributable to known finding %s\n", j, KNOWN_ID); continue; }
             snprintf(msg, mcap, "rank %d: consumer %d (kind %c, %s, pack %c unpack %c) received [%s], expected [%s] (column-major, '..' = arena fill pattern)", myrank, j, c->st->kinds[j - 1],
                      c->place[j - 1] ? "remote" : "local", TYN[mo[j].S], TYN[mo[j].D], a, b);
             bad = 1; break;
@@ -245,11 +224,6 @@ static int run_case(const case_t *c, stat_t *st, char *msg, size_t mcap, int ver
         for (int e = 1; e < m * m; e++) if (snap[1][j][e] != mk) uni = 0;
         for (int i = 1; i <= nc; i++) if (mk == 9000 + i && same_class(c, &mo[j], j, &mo[i], i)) okmk = 1;
         if (verbose) { fmt_tile(a, sizeof(a), snap[1][j], m * m); printf("    rank %d consumer %d after all writes: [%s]\n", myrank, j, a); }
-        if (uni && !okmk) {   /* known finding: j itself, or the consumer whose marker j found, was handed a wrong (shared) copy */
-            int kn = attributable(c, j);
-            for (int i = 1; i <= nc; i++) if (mk == 9000 + i && c->place[i - 1] == c->place[j - 1] && attributable(c, i)) kn = 1;
-            if (kn) { khits++; if (verbose) printf("    -> consumer %d: copy shared, attributable to known finding %s\n", j, KNOWN_ID); continue; }
-        }
         if (!uni || !okmk) {
             fmt_tile(a, sizeof(a), snap[1][j], m * m);
             snprintf(msg, mcap, "rank %d: consumer %d (kind %c, pack %c unpack %c) wrote marker %d over its copy but later found [%s]: its copy is shared with a consumer of a different conversion or was overwritten",
@@ -265,7 +239,6 @@ static int run_case(const case_t *c, stat_t *st, char *msg, size_t mcap, int ver
         for (int i = 1; i <= nc; i++) if (mk == 9000 + i && c->place[i - 1] == 0 && !mo[i].conv) okmk = 1;
         elems += m * m;
         if (verbose) { fmt_tile(a, sizeof(a), tile, m * m); printf("    producer's tile after the run: [%s]\n", a); }
-        if (!orig && uni && !okmk) for (int i = 1; i <= nc; i++) if (mk == 9000 + i && attributable(c, i)) { okmk = 1; khits++; if (verbose) printf("    -> producer's tile written by consumer %d, attributable to known finding %s\n", i, KNOWN_ID); }
         if (!orig && !(uni && okmk)) {
             fmt_tile(a, sizeof(a), tile, m * m);
             snprintf(msg, mcap, "the producer's tile was altered: [%s] (no local consumer without conversion wrote that)", a);
@@ -282,10 +255,8 @@ static int run_case(const case_t *c, stat_t *st, char *msg, size_t mcap, int ver
         if (first < world) { char tmp[SX_ERRLEN]; snprintf(tmp, sizeof(tmp), "%s", msg); MPI_Bcast(tmp, sizeof(tmp), MPI_CHAR, first, MPI_COMM_WORLD); snprintf(msg, mcap, "%s", tmp); bad = 1; }
     }
     alarm(0);
-    if (world > 1) { int kh = khits; MPI_Allreduce(&kh, &khits, 1, MPI_INT, MPI_SUM, MPI_COMM_WORLD); }
-    if (khits && myrank == 0) sx_known_finding("id=%s (jdf2c iterate_successors keeps data.data_future across output deps of different [type]); first instance: see evidence", KNOWN_ID);
     if (st) {
-        st->cases++; st->elems += elems; st->known_hits += khits; if (khits) st->known_cases++;
+        st->cases++; st->elems += elems;
         int ntriv = 0;
         for (int j = 1; j <= nc; j++) { if (!mo[j].conv) st->noconv++; else if (c->place[j - 1]) st->conv_remote++; else st->conv_local++; if (mo[j].conv) ntriv = 1; }
         st->nontrivial += ntriv;
@@ -414,8 +385,8 @@ static void run_box(const box_t *b)
         if (myrank == 0 && (nstruct || !b->only)) {
             char extra[700]; const char *sp[3] = { st.samples[0], st.samples[1], st.samples[2] };
             snprintf(extra, sizeof(extra), "\"structures\":%ld,\"consumers_with_local_conversion\":%ld,\"consumers_with_remote_conversion\":%ld,\"consumers_without_conversion\":%ld,"
-                     "\"copies_found_shared_within_class\":%ld,\"runs_where_producer_tile_was_legitimately_written\":%ld,\"elements_checked\":%ld,\"ranks\":%d,\"short_messages\":%d,\"shard\":\"%d/%d\",\"known_finding_instances\":%ld,\"known_finding_observations\":%ld",
-                     nstruct, st.conv_local, st.conv_remote, st.noconv, st.shared_pairs, st.tile_written, st.elems, world, short_on, b->shard, b->nshards, st.known_cases, st.known_hits);
+                     "\"copies_found_shared_within_class\":%ld,\"runs_where_producer_tile_was_legitimately_written\":%ld,\"elements_checked\":%ld,\"ranks\":%d,\"short_messages\":%d,\"shard\":\"%d/%d\"",
+                     nstruct, st.conv_local, st.conv_remote, st.noconv, st.shared_pairs, st.tile_written, st.elems, world, short_on, b->shard, b->nshards);
             sx_report(tag, st.cases, st.elems, st.cases, st.nontrivial, (long)st.outcomes.n, st.exhaustive, st.violations, sx_now() - t0, extra, sp, st.nsamples);
         }
         free(st.outcomes.v);
@@ -436,7 +407,6 @@ int main(int argc, char **argv)
         else if (!strcmp(argv[i], "--short") && i + 1 < argc) short_on = atoi(argv[++i]);
         else if (!strcmp(argv[i], "--skip-all-local")) b.skip_all_local = 1;
         else if (!strcmp(argv[i], "--maxviol") && i + 1 < argc) max_viol = atoi(argv[++i]);
-        else if (!strcmp(argv[i], "--known")) known_enabled = 1;
         else if (!strcmp(argv[i], "--only") && i + 1 < argc) b.only = argv[++i];
         else if (!strcmp(argv[i], "--shard") && i + 1 < argc) sscanf(argv[++i], "%d/%d", &b.shard, &b.nshards);
     }
